@@ -17,10 +17,12 @@ META = {
     "bounds": "one delivery through the real coap_dispatch/handle_response on a client UDP session from an arbitrary "
               "deduplication state (last_con_mid, last_ack_mid, stored verdict), response type CON/NON/ACK (code 2.05) or empty "
               "ACK/RST, symbolic mid/token/handler verdict/clock, send queue holding no request / the request with the same mid / "
-              "with the same token only / an unrelated one; plus the same datagram delivered twice.",
+              "with the same token only / an unrelated one; plus the same datagram delivered twice; S5: coap_remove_from_queue over an arbitrary 1-2 (t: 3) node "
+              "queue with symbolic mids/sessions; S6: server side, a CON/NON request dispatched again while its async entry is pending (delay 0, future deadline) "
+              "or expired, symbolic clock/deadline/mid/token.",
     "outside": "more than one outstanding exchange per session; block-wise and OSCORE exchanges; responses other than code 2.05 "
-               "(the code only selects the class); network delays >= ACK_TIMEOUT (excluded by the property); the server-side "
-               "separate-response path (application code) and coap_check_async",
+               "(the code only selects the class); network delays >= ACK_TIMEOUT (excluded by the property); the application-driven part of a "
+               "separate response and coap_check_async",
     "assumptions": ["l_write, response/nack/event handlers, clock are harness stubs; send queue has <= 1 node",
                     "block_mode = 0 (application handles blocks), no OSCORE, no proxy"],
 }
@@ -54,6 +56,15 @@ def jobs():
         js.append(Job("S2-twice@%s" % tn, "C07/c07.c", "c07_s2_twice", UNITS, extra_src=EXTRA, defines=["RTYPE=%d" % TYPES[tn]] + CUT_CLIENT, remove_bodies=RB_CLIENT,
                       unwind=18, flags=FS, group="S2-twice", timeout=900, est_gb=3,
                       desc="same %s response datagram delivered twice" % tn.upper(), bounds={"type": tn}))
+    # server side of a separate response: a duplicate of the request while the async entry is pending (C10's dispatch harness)
+    from jobs.C10 import CUT as C10_CUT, RB as C10_RB
+    for tn, tv in (("con", 0), ("non", 1)):
+        for kind, kn in ((0, "indefinite"), (1, "future"), (2, "expired")):
+            js.append(Job("S6-async-duplicate@%s-%s" % (tn, kn), "C10/c10.c", "c10_s4_async_dup", UNITS, extra_src=EXTRA,
+                          defines=["QTYPE=%d" % tv, "ASYNC_KIND=%d" % kind, "METHOD=1", "PATH=1", "EXTRA=0", "TABLE=0", "EXPECT=205", "ENV_LOG_QUIET"] + C10_CUT,
+                          remove_bodies=C10_RB, unwind=34, flags=FS, group="S6-async-duplicate", timeout=900, est_gb=3,
+                          desc="%s request seen again while its separate response is pending (async delay %s): not passed to the handler twice" % (tn.upper(), kn),
+                          bounds={"type": tn, "async delay": kn}))
     # an ACK/RST stops "exactly the matching request": the queue search itself (coap_remove_from_queue, first entry with BOTH the session and the
     # message id) is the C06 step harness over an arbitrary 1-2 node queue with symbolic mids and sessions
     import copy
